@@ -1,7 +1,7 @@
 """C12 configuration for bin/check."""
 PROP = dict(
     title='Dispute lifecycle, voting power and tally follow the specified rules',
-    drivers=['TestC12Tally', 'TestC12Ratio', 'TestC12Votes'],
+    drivers=['TestC12Tally', 'TestC12Ratio', 'TestC12Votes', 'TestC12Lifecycle'],
     coq_modules=['Model.DisputeTally'], case_type='c12_case', check_fn='c12_check', classes_fn='c12_classes',
     rule='tally: real Keeper.TallyVote on the real dispute keeper (keepertest.DisputeKeeper, bank supply stubbed) with Disputes, Votes, '
          'VoteCountsByGroup, Voter and BlockInfo written directly: a corpus (F03/F24 witnesses, the repo\'s unit-test vectors, nobody voted, '
@@ -17,11 +17,30 @@ PROP = dict(
          '3-8 addresses (team, tippers, reporters, selectors of those reporters, holders; oracle/reporter/bank keepers are the repo\'s mocks answering '
          'from the generated table and recording the block number they are asked for); repeated voters, a reporter after / before its selectors, '
          'times at vote end -1,0,+1 ns, totals that let quorum be reached mid-sequence; 8 % with mismatching stake snapshots, 8 % with amounts at 2^64; '
-         'non-trivial = >= 2 accepted votes; distinct by table + operations',
+         'non-trivial = >= 2 accepted votes; distinct by table + operations. '
+         'lifecycle: TestC12Lifecycle runs whole dispute lifecycles on the full application (tests.SharedSetup rewired with the production module '
+         'accounts: real bank, staking, oracle, reporter, dispute keepers): 1-2 real reports (MsgSubmitValue by two reporters, aggregated by the oracle '
+         'end blocker; categories warning/minor/major) are disputed through the real msg server (MsgProposeDispute for the new dispute and for every '
+         'further round, MsgAddFeeToDispute, MsgVote; each message in its own cache context) and time passes through the real dispute.BeginBlocker; '
+         'after every event all dispute records of the store (Disputes[id] + Votes[id]: id, status, open, pending, round, start/end, fee total, slash, '
+         'burn, dispute fee, previous ids, vote start/end/result/executed) and the amount charged to the payer are observed (records delta-encoded). '
+         'Corpus of 17 scripts: quorum then every request refused (fee below minimum, double vote, vote / fee / round on a resolved and on an executed '
+         'dispute), partial fee + two payments (too large: charged the missing part), unknown id, vote in prevote, block exactly at / 1 ns after the vote '
+         'end, the dispute end and the prevote end, prevote -> failed and everything refused after, 2..6 rounds with the exact round fee ended by quorum / '
+         'by the dispute end, fees one loya short (refused) and too large (charged the round fee), nobody votes, six rounds ending AGAINST (execution '
+         'fails: F22 of C13), two lineages interleaved (fresh ids across lineages); then generated histories (<= 70 events): per lineage a plan (1-6 '
+         'rounds, last round by quorum or not, full / partial / never completed first fee) advanced by the observed state with amounts at the needed value '
+         '-1/0/+1/multiples, block gaps at each deadline -1 ns/0/+1 ns/later, 11 % noise events on random ids (one past the last), 1/3 with two lineages '
+         'sharing the clock. non-trivial = >= 3 accepted propose / add-fee / block events and >= 1 rejected request; distinct by the whole history',
     technique='Coq theorems (Dec arithmetic of Ratio and of the score accumulation bounded against exact rationals; case analysis of TallyVote / '
               'UpdateDispute; invariant + rank function over a lifecycle state machine, induction over event histories; induction over vote '
               'sequences for vote-once and counter = sum of records mod 2^64) + differential execution of the real TallyVote, Ratio and '
-              'msgServer.Vote against the model inside Coq (vm_compute), with the executable specification evaluated on the real outputs',
+              'msgServer.Vote against the model inside Coq (vm_compute), with the executable specification evaluated on the real outputs; for the lifecycle '
+              'clause: histories of the real application replayed in Coq twice - an executable reference of the clause on the observed records alone '
+              '(status graph, rank, at most one transition per id, fresh ids, charged fee = min(5 % * 2^round, slash), absolute bookkeeping burn = 5 % + '
+              'all round fees, fee total = slash + round fees, deadlines, rejected events change nothing and only invalid events are rejected) and the '
+              'lifecycle machine [step] run on the same events (Diff), with soundness lemmas for the reference and invariants of the machine by '
+              'induction over histories',
     level_text='Machine-checked for all inputs: Ratio = floor(25*10^6*part/total) for 0 < total < 2*10^16 (within one unit beyond, bound tight); '
                'the tally (repaired variant = current code) returns a result or "still voting" for every distribution, never an error; outside the '
                'class of finding F24 it satisfies the executable specification: quorum decision = exact participation against 51 % up to 3*10^-6 '
@@ -30,17 +49,31 @@ PROP = dict(
                'prevote -> voting -> (unresolved ->) resolved | prevote -> failed with a strictly increasing rank, over all histories; BeginBlocker '
                'cannot fail on dispute state; new rounds take a fresh id with fee min(2*fee, slash); an address is accepted at most once per round '
                'and only while open; reporter/token-holder counters = sums of the voter records mod 2^64. Refuted for the code as found: F03 '
-               '(tie => error => halt), F24 (first quorum check ignores token holders).',
+               '(tie => error => halt), F24 (first quorum check ignores token holders). Lifecycle correspondence: round fee = min(floor(slash/20) * 2^round, '
+               'slash) (10, 20, 40, 80, 100 % ...; = slash from the sixth round for slash >= 40), not derived from the burn amount; over every history '
+               'of the machine burn = 5 % + the fees of rounds 2..r and fee total = slash + those fees; the machine the check runs (tally inputs '
+               'refreshed per block, lineage map, minimum fee) keeps invariant + monotone rank and never halts; an empty issue list of the executable '
+               'reference implies that consecutive observations are linked record by record along the status graph with non-decreasing rank and fixed '
+               'id / slash / round / burn, and that an accepted further round was on an unresolved, open, unexpired dispute, charged exactly the round '
+               'fee and created id = previous maximum + 1; a recorded real history passes, the same history with a doubled round charge fails.',
     level_note='Trusted: Coq kernel; the harness (state written directly into the collections for the tally driver; neighbouring keepers mocked '
                'for the vote driver, so that the environment hypothesis "a reporter\'s tokens at the dispute block include its selectors\' tokens" is '
                'generated, not observed); math.Int modelled as Z (no 256-bit overflow: inputs < 2^70), LegacyDec as scaled integers with '
                'chopPrecisionAndRound; time as unix ns. The lifecycle machine abstracts a vote as "the counters it leaves" and fee payments / '
                'execution payouts as always succeeding (C13). cast_g <= total_g is not assumed: participation is not capped at 25 % per group, '
                'as in the code. The bound "no counter underflow" is proved from the records being non-negative, which the environment hypothesis '
-               'implies; that implication is checked by the vote driver (executable spec), not proved.',
+               'implies; that implication is checked by the vote driver (executable spec), not proved. Lifecycle driver: votes enter the machine as the '
+               'counters / BlockInfo / supply a tally reads (observed from the keepers after each vote and before each block), "eligible" = no voter record '
+               'and a positive balance is computed by the driver; payers are solvent and pay from their balance (payments from stake: C13); the amount charged '
+               'is the decrease of the payer\'s balance; the driver calls only dispute.BeginBlocker per block (no mint / staking block functions after the '
+               'set-up), once per time change; a BeginBlocker failure is attributed to expiry / tally (violation) or to the execution of a vote (C13: F22, '
+               'six rounds ending AGAINST; the history stops there) by re-running the first half alone. Start time, dispute fee and previous ids are checked '
+               'by the executable reference only (the machine has no such fields). Not a clause, observed: AddDisputeRound\'s status guard is implied by '
+               'its open / end-time guards (every reachable resolved dispute is closed or past its end); a dispute executed at its end time keeps Open = true; '
+               'a further round starts Voting with PendingExecution = true.',
     assumptions=['vote counters, totals and supply are non-negative; totals below 2^70 (no Int/Dec overflow)',
                  'a Voter record exists for every address whose weight is in a counter (consistent input); no voter record => no votes',
                  'reporter tokens at the dispute block include the tokens of each current selector of that reporter (reporter keeper snapshots)',
                  'BeginBlocker runs once per block before the block\'s transactions; block time does not decrease'],
-    design_ref='5/C12', shard=150,
+    design_ref='5/C12', shard=150, per_driver={'TestC12Lifecycle': {'shard': 20}},
 )
